@@ -50,11 +50,12 @@ Sat3(v, op, lit) ==
                         ELSE (IF v = NULL THEN "F" ELSE "T")
   ELSE IF v = NULL THEN "U"
   ELSE IF op \in CmpOps THEN
-      IF v = NAN THEN (IF op = "!=" THEN "T" ELSE "F")     \* IEEE: every comparison with NaN is false, != is true
+      IF v = NAN \/ lit = NAN THEN (IF op = "!=" THEN "T" ELSE "F")     \* IEEE: every comparison with NaN (stored or literal) is false, != is true
       ELSE IF Cmp(op, v, lit) THEN "T" ELSE "F"
   ELSE \* set operators: NULL members of the value set match nothing
       LET s == lit \ {NULL} IN
-      IF op = "in" THEN (IF v \in s THEN "T" ELSE "F")      \* NaN is never a member here
+      \* (set membership as the engine evaluates it, pc.is_in: a NaN member of the value set matches NaN rows)
+      IF op = "in" THEN (IF v \in s THEN "T" ELSE "F")
                    ELSE (IF v \in s THEN "F" ELSE "T")
 
 \* An expression is [col, op, lit]; a row is a function col -> value.
@@ -80,8 +81,9 @@ PyLt(a, b) == IF a = NAN \/ b = NAN THEN FALSE ELSE a < b
 PyLe(a, b) == IF a = NAN \/ b = NAN THEN FALSE ELSE a <= b
 PyEq(a, b) == IF a = NAN \/ b = NAN THEN FALSE ELSE a = b
 
-\* NeFloatGuard models the repaired != arm (fix for the NaN finding): when TRUE, the != arm
-\* does not prune a column whose bounds are floats, because NaN rows are invisible to min/max.
+\* NeFloatGuard models the repaired arms (fixes for the NaN findings): when TRUE, the != arm does not prune a column
+\* whose bounds are floats, and the in arm does not prune when the value set contains NaN - NaN rows are invisible
+\* to min/max.
 MayMatchOne(op, lit, b, isFloat, NeFloatGuard) ==
   IF ~b.has THEN TRUE
   ELSE
@@ -94,6 +96,7 @@ MayMatchOne(op, lit, b, isFloat, NeFloatGuard) ==
     [] op = "<="  -> ~PyLt(lit, b.lo)      \* file_min > value
     [] op = "in"  -> IF lit = {} THEN TRUE
                      ELSE IF NULL \in lit THEN TRUE          \* TypeError -> cannot prune
+                     ELSE IF NeFloatGuard /\ NAN \in lit THEN TRUE    \* repaired: NaN rows are invisible to min/max
                      ELSE \E v \in lit : PyLe(b.lo, v) /\ PyLe(v, b.hi)
     [] OTHER      -> TRUE                   \* not_in, is_null, is_not_null: never pruned
 
